@@ -132,6 +132,8 @@ class UpdateVcsgLocationAnswer(UpdateVcsgLocation):
         self.header.is_request = False
         self.header.is_proxyable = True
 
+        setattr(self, "vplmn_csg_subscription_data", [])
+        setattr(self, "supported_features", [])
         setattr(self, "load", [])
         setattr(self, "reset_id", [])
         setattr(self, "failed_avp", [])
